@@ -205,7 +205,10 @@ def check(ctx, desc, rows, kinds, dcontext, use_format, case):
 def dcontext_for(rng):
     from beancount.core import display_context
     dc = display_context.DisplayContext()
-    for cur in CURRENCIES:
+    # now and then the context has never seen some of the currencies (directives built in Python, plug-ins, foreign
+    # options): their numbers are then left as they are
+    known = CURRENCIES if rng.random() < 0.7 else [c for c in CURRENCIES if rng.random() < 0.6]
+    for cur in known:
         for _ in range(3):
             dc.update(D(rng.choice(['1.00', '2.50', '0.001', '10', '3.1234'])), cur)
     return dc
